@@ -350,6 +350,16 @@ def rand_model(ctx, ncomp, big=False):
         nx, ny = nx + 3, ny + 2
     data, mx, my = rand_grid(rng, nx, ny, rng.choice([0.0, 0.05, 0.15]))
     comps = [rand_comp(rng, nx, ny, k, ncomp) for k in range(ncomp)]
+    if ncomp >= 2 and rng.random() < 0.35:
+        # round 9: consecutive components SHARE parameter values (the beam's position angle and shape in a crowded
+        # island, fixed-shape priorized fits) while their centres differ: anything carried over from the previous
+        # component "because the value did not change" must still be evaluated about the component's own centre
+        for k in range(1, ncomp):
+            share = rng.choice([(5,), (3, 4, 5), (3, 4), (0, 5), (0, 3, 4, 5)])
+            c = list(comps[k])
+            for j in share:
+                c[j] = comps[k - 1][j]
+            comps[k] = tuple(c)
     masks = [rand_mask(rng, k) for k in range(ncomp)]
     ek = rng.choice(['enone', 'escalar', 'escalar', 'evec'])
     ev = None
